@@ -588,13 +588,36 @@ DBL_MIN = 2.2250738585072014e-308
 ROW_TOL = 2e-4
 
 
+# oracle contract of perplexity_converges, observed: over the betas one search visits, the entropy H the loop computes
+# is non-increasing in beta (binary64 exp/log; counted, reported in the evidence, not a verdict)
+MONO = {"searches": 0, "pairs": 0, "violations": 0, "worst": 0.0}
+
+
+def mono_observe(trace):
+    trace = sorted(t for t in trace if t[1] == t[1] and abs(t[1]) != float("inf"))
+    MONO["searches"] += 1
+    for (b1, h1), (b2, h2) in zip(trace, trace[1:]):
+        if b2 > b1:
+            MONO["pairs"] += 1
+            if h2 > h1 + 1e-9 * (1.0 + abs(h1)):
+                MONO["violations"] += 1
+                MONO["worst"] = max(MONO["worst"], h2 - h1)
+
+
 def perp_row_mirror(dd, self_idx, perplexity):
     """transliteration of Tsne_Model.perp_loop / the C++ loop in binary64; returns (found, row, beta)."""
+    found, row, beta, trace = perp_row_mirror_traced(dd, self_idx, perplexity)
+    mono_observe(trace)
+    return found, row, beta
+
+
+def perp_row_mirror_traced(dd, self_idx, perplexity):
     beta, minb, maxb = 1.0, None, None
     tol = 1e-5
     lp = math.log(perplexity)
     row, sum_P = None, None
     found = False
+    trace = []
     for _ in range(200):
         row = [math.exp(-beta * x) for x in dd]
         if self_idx is not None:
@@ -606,6 +629,7 @@ def perp_row_mirror(dd, self_idx, perplexity):
         for x, p in zip(dd, row):
             H += beta * (x * p)
         H = H / sum_P + math.log(sum_P)
+        trace.append((beta, H))
         Hdiff = H - lp
         if Hdiff < tol and -Hdiff < tol:
             found = True
@@ -616,7 +640,7 @@ def perp_row_mirror(dd, self_idx, perplexity):
         else:
             maxb = beta
             beta = beta / 2.0 if minb is None else (beta + minb) / 2.0
-    return found, [p / sum_P for p in row], beta
+    return found, [p / sum_P for p in row], beta, trace
 
 
 def entropy(row):
@@ -988,7 +1012,15 @@ def check_one(ctx, c, payload, mout, post, i, gb_err, ci):
             return ("violation", "computeGradient returned %d entries / non-finite values" % len(got))
         distinct = len(set(tuple(p) for p in c["Y"])) == N
         ref = closed_form_grad(N, c["row"], c["col"], val, Y)
-        scale = max(abs(v) for r in ref for v in r) or 1e-300
+        # attraction and repulsion may cancel (exactly, for two points): errors are measured against the size of the
+        # terms, not of their difference
+        terms = 1e-300
+        for a in range(N):
+            for i2 in range(c["row"][a], c["row"][a + 1]):
+                b = c["col"][i2]
+                dist = sum((Y[a][d] - Y[b][d]) ** 2 for d in range(2))
+                terms = max(terms, max(abs(val[i2] / (1.0 + dist) * (Y[a][d] - Y[b][d])) for d in range(2)))
+        scale = max(max(abs(v) for r in ref for v in r), terms)
         if distinct and theta == 0.0:
             # theta = 0: nothing is summarised, the quadtree sums ARE the closed form (theta > 0 on a handful of points
             # is as coarse as one likes: left to the model comparison below and to the GB / TG streams)
@@ -1001,7 +1033,7 @@ def check_one(ctx, c, payload, mout, post, i, gb_err, ci):
         model = [hx(t) for t in mout[1:]]
         if len(model) != 2 * N:
             return ("mismatch", "computeGradient model returns %d entries" % len(model))
-        mscale = max([abs(v) for v in model] + [1e-300])
+        mscale = max([abs(v) for v in model] + [terms])
         for j in range(2 * N):
             if abs(got[j] - model[j]) > 1e-9 * mscale:
                 return ("mismatch", "computeGradient (theta = %g, N = %d): dC[%d,%d] = %.12g, extracted model "
@@ -1694,18 +1726,19 @@ def eval_tp(ctx, exe, c, stats):
 
 def thread_search(ctx, exe, rng, found, stats):
     """an OpenMP directive appeared in the t-SNE headers: look for a thread count / size at which a result changes."""
-    nums = sorted({v for f in found for v in f[3] if 2 <= v <= 4000})
+    nums = sorted({v for f in found for v in f[3] if 2 <= v <= 20000})
     Ns = []
-    for v in nums:
-        Ns += [v - 1, v, v + 1, min(2 * v, 4000)]
+    for v in nums[:3]:
+        Ns += [v - 1, v, v + 1, min(2 * v, 24000)]
     Ns += [300, 1500, 3000]
-    Ns = sorted({n for n in Ns if n >= 40})[:9]
+    Ns = sorted({n for n in Ns if n >= 40})[:12]
     n = 0
     found_cases = []
     for N in Ns:
-        if ctx.has_violation():
-            break
-        found_cases.append(gen_tg_case(rng, N, threads=[1, 2, 8, 16], reps=3, closed=(N <= 1200)))
+        if N <= 4000:
+            found_cases.append(gen_tg_case(rng, N, threads=[1, 2, 8, 16], reps=3, closed=(N <= 1200)))
+        else:       # megabytes per line: fewer runs
+            found_cases.append(gen_tg_case(rng, N, thetas=(0.5,), threads=[1, 8], reps=2, closed=False))
     for N in [m for m in Ns if m <= 2000][-3:]:
         found_cases.append(gen_tp_case(rng, max(N, 100), threads=[1, 2, 8, 16], reps=2))
     for c in found_cases:
@@ -1806,7 +1839,8 @@ def run(ctx):
                      "no parallel construct in the t-SNE headers (scanned on every run: %s)" % (
                          "none found" if not par else "; ".join("%s:%d %s" % (f[0], f[1], f[2]) for f in par))],
         extra={"traces_validated_against_impl": n, "thread_streams": stats.get("threads"),
-               "scale_twins_compared": stats.get("twins", 0), "scale_twins_differ": stats.get("twins_differ", 0)})
+               "scale_twins_compared": stats.get("twins", 0), "scale_twins_differ": stats.get("twins_differ", 0),
+               "entropy_monotone_in_beta_observed": dict(MONO)})
 
 
 def replay(ctx, case):
